@@ -234,8 +234,45 @@ def _wipe_function(module, f, summ, sinks, plain_ok, limit, mode="wipe", allocas
     order = f.rpo()
     nullgood = {}   # (block, succ) edges to skip: param known null
 
+    # loops with a constant trip count that store to consecutive cells (for (i = 0; i < N; ++i) p[i] = v): summarised as
+    # one block write that takes effect where the loop is left (needs the scalar-evolution facts of irdump --scev)
+    loop_writes = {}
+    for lp in f.d.get("loops", []):
+        if lp.get("btc_const") is None or len(lp.get("exiting", [])) != 1 or lp.get("depth") != 1:
+            continue
+        blocks = set(lp["blocks"])
+        ex = lp["exiting"][0]
+        targets = [sx.name for sx in f.bmap[ex].succs if sx.name not in blocks]
+        if len(targets) != 1 or any(p.name not in blocks for p in f.bmap[targets[0]].preds):
+            continue
+        latches = [p.name for p in f.bmap[lp["header"]].preds if p.name in blocks]
+        dom = f.dominators()
+        for rec in lp.get("scev", []):
+            if rec[1] != "store":
+                continue
+            mm = re.fullmatch(r"\{(?:\((\d+) \+ )?(%[\w.]+)\)?,\+,(\d+)\}(?:<[^>]*>)*", rec[2].strip())
+            if not mm or mm.group(2) not in pidx:
+                continue
+            ident = rec[0].split("@", 1)[1] if "@" in rec[0] else None
+            acc = [i for i in f.insts() if i.op == "store" and i.block.name in blocks and i.ops[1] == ident]
+            if len(acc) != 1:
+                continue
+            acc = acc[0]
+            stride, c0, sz = int(mm.group(3)), int(mm.group(1) or 0), acc.d.get("sz") or 0
+            if sz != stride or not all(acc.block.name in dom[l] for l in latches):
+                continue
+            execs = lp["btc_const"] + 1 if acc.block.name in dom[ex] else lp["btc_const"]
+            if execs <= 0 or stride * execs > limit:
+                continue
+            cval = ir.const_int(acc.ops[0])
+            isz = isinstance(acc.ops[0], dict) and acc.ops[0].get("zero")
+            if init or ((cval is not None or isz) and plain_ok):
+                loop_writes.setdefault(targets[0], []).append((pidx[mm.group(2)], range(c0, c0 + stride * execs)))
+
     def transfer(b, state):
         st = {k: set(v) for k, v in state.items()}
+        for k, rng in loop_writes.get(b.name, ()):
+            st.setdefault(k, set()).update(rng)
         for i in b.insts:
             if i.op == "store":
                 pv = R.resolve(i.ops[1])
